@@ -1081,29 +1081,34 @@ Section Refine.
      trip of an index, a registry the tag can be resolved against (Docker-Content-Digest or
      Content-Length present: the known finding otherwise), no digest collision between the old
      and the new index, the new index within MaxMetadataBytes. *)
-  Hypothesis Hjson : forall l, index_of (gen_index l) = Some l.
+  (* JSON decoding of an index is the parameter index_of; the theorems ask it to invert gen_index on
+     the PARTICULAR indexes they read (a hypothesis for all lists would be unsatisfiable: gen_index
+     does not escape, so it is not injective on descriptors whose strings contain quotes) *)
+  Definition json_ok (l : list desc) : Prop := index_of (gen_index l) = Some l.
+  Definition json_ok_st (st : option (str * list desc)) : Prop :=
+    match st with Some (_, l) => json_ok l | None => True end.
   Hypothesis Hidx_subj : forall l, subject_of (gen_index l) = Some None.
   Hypothesis Hidx_mt : parse_mt mt_index = Some mt_index.
 
   Lemma rfi_on_index_m g n tag od l :
     minv g -> resolve_ref main tag = Some tag -> valid_digest tag = false ->
-    index_state g tag (Some (od, l)) -> (p_clen p = true \/ p_dighdr p = true) ->
+    index_state g tag (Some (od, l)) -> (p_clen p = true \/ p_dighdr p = true) -> json_ok l ->
     exists n' t, referrers_from_index H parse_mt main user_mts limit index_of S ex0 (g, n) tag
                  = ((g, n'), t, ROk, Some (mkDesc mt_index od (len (gen_index l)), l)).
   Proof.
-    intros Hi ER Vt [Lt Lm] Hp. destruct (Hi _ _ _ Lm) as (Hd & _ & Hlim).
+    intros Hi ER Vt [Lt Lm] Hp Hj. destruct (Hi _ _ _ Lm) as (Hd & _ & Hlim).
     assert (ML : man_lookup (store_of g) tag = Some (od, (mt_index, gen_index l))).
     { rewrite man_lookup_store. unfold man_digest. rewrite Vt, Lt, Lm. reflexivity. }
     assert (Hp' : p_clen p = true \/ p_dighdr p = true \/ valid_digest tag = true) by tauto.
     destruct (man_fetchref_hit_m g n tag tag od mt_index (gen_index l) Hi ER ML Hp') as (n' & t & E).
     unfold referrers_from_index. rewrite E. cbn [d_sz d_dg].
     assert (El : (limit <? len (gen_index l)) = false) by (apply N.ltb_ge; exact Hlim).
-    rewrite El, N.eqb_refl, <- Hd, str_eqb_refl, andb_false_r, Hjson. eauto.
+    rewrite El, N.eqb_refl, <- Hd, str_eqb_refl, andb_false_r, Hj. eauto.
   Qed.
 
   Lemma rfi_on_index g n tag od l :
     inv g -> resolve_ref main tag = Some tag -> valid_digest tag = false ->
-    index_state g tag (Some (od, l)) -> (p_clen p = true \/ p_dighdr p = true) ->
+    index_state g tag (Some (od, l)) -> (p_clen p = true \/ p_dighdr p = true) -> json_ok l ->
     exists n' t, referrers_from_index H parse_mt main user_mts limit index_of S ex0 (g, n) tag
                  = ((g, n'), t, ROk, Some (mkDesc mt_index od (len (gen_index l)), l)).
   Proof. intro Hi. apply rfi_on_index_m. now apply inv_minv. Qed.
@@ -1150,13 +1155,13 @@ Section Refine.
     let tag := ref_tag (d_dg subj) in
     resolve_ref main tag = Some tag -> valid_digest tag = false ->
     (p_clen p = true \/ p_dighdr p = true) ->
-    index_state g tag st ->
+    index_state g tag st -> json_ok_st st ->
     exists n' t, tag_schema_referrers H parse_mt main user_mts limit index_of S ex0 (g, n) subj
                  = ((g, n'), t, RDescs (clean_refs [] (match st with Some (_, l) => l | None => [] end))).
   Proof.
-    intros Hi Vs tag ER Vt Hp Hst. unfold tag_schema_referrers. rewrite Vs. cbn [negb]. fold tag.
+    intros Hi Vs tag ER Vt Hp Hst Hj. unfold tag_schema_referrers. rewrite Vs. cbn [negb]. fold tag.
     destruct st as [[od l]|].
-    - destruct (rfi_on_index_m g n tag od l Hi ER Vt Hst Hp) as (n3 & t3 & E3). rewrite E3. eauto.
+    - destruct (rfi_on_index_m g n tag od l Hi ER Vt Hst Hp Hj) as (n3 & t3 & E3). rewrite E3. eauto.
     - destruct (rfi_no_index g n tag ER Vt Hst) as (t3 & E3). rewrite E3. eauto.
   Qed.
 
@@ -1166,7 +1171,7 @@ Section Refine.
     let tag := ref_tag (d_dg subj) in
     resolve_ref main tag = Some tag -> valid_digest tag = false ->
     (p_clen p = true \/ p_dighdr p = true) ->
-    index_state g tag old -> NoDup (map fst (g_tags g)) ->
+    index_state g tag old -> json_ok_st old -> NoDup (map fst (g_tags g)) ->
     apply_change (match old with Some (_, l) => l | None => [] end) (Some ch) = Some upd ->
     len (gen_index upd) <= limit ->
     (skip_gc = true \/ forall od l0, old = Some (od, l0) -> od <> H (gen_index upd)) ->
@@ -1176,7 +1181,7 @@ Section Refine.
       ts_step g g' (gen_index upd) old /\
       index_state g' tag (if is_nil upd && negb skip_gc then None else Some (H (gen_index upd), upd)).
   Proof.
-    intros Hi Hr Vs tag ER Vt Hp Hst Huniq Hch Hlim Hcol.
+    intros Hi Hr Vs tag ER Vt Hp Hst Hjo Huniq Hch Hlim Hcol.
     set (j := gen_index upd).
     assert (Hi0 : ts_step g g j old) by (repeat split; auto).
     assert (Vtag : valid_ref tag = true) by (eapply resolve_ref_valid; eauto).
@@ -1187,7 +1192,7 @@ Section Refine.
                | None => res1 = RErr ENotFound /\ o1 = None
                end).
     { destruct old as [[od l0]|].
-      - destruct (rfi_on_index_m g n tag od l0 Hi ER Vt Hst Hp) as (n1 & t1 & E). eauto 10.
+      - destruct (rfi_on_index_m g n tag od l0 Hi ER Vt Hst Hp Hjo) as (n1 & t1 & E). eauto 10.
       - destruct (rfi_no_index g n tag ER Vt Hst) as (t1 & E). eauto 10. }
     destruct Hrfi as (n1 & t1 & res1 & o1 & E1 & Hold).
     assert (Sj : sub_ok j) by (left; apply Hidx_subj).
@@ -1281,7 +1286,7 @@ Section Refine.
     let tag := ref_tag (d_dg subj) in
     resolve_ref main tag = Some tag -> valid_digest tag = false ->
     (p_clen p = true \/ p_dighdr p = true) ->
-    index_state g tag old -> NoDup (map fst (g_tags g)) ->
+    index_state g tag old -> json_ok_st old -> json_ok upd -> NoDup (map fst (g_tags g)) ->
     apply_change (match old with Some (_, l) => l | None => [] end) (Some ch) = Some upd ->
     len (gen_index upd) <= limit ->
     (skip_gc = true \/ forall od l0, old = Some (od, l0) -> od <> H (gen_index upd)) ->
@@ -1292,11 +1297,13 @@ Section Refine.
       exists n'' t', tag_schema_referrers H parse_mt main user_mts limit index_of S ex0 (g', n') subj
                      = ((g', n''), t', RDescs (clean_refs [] upd)).
   Proof.
-    intros Hi Hr Vs tag ER Vt Hp Hst Huniq Hch Hlim Hcol.
-    destruct (tag_schema_update_m g n rst subj old ch upd (inv_minv _ Hi) Hr Vs ER Vt Hp Hst Huniq Hch Hlim Hcol)
+    intros Hi Hr Vs tag ER Vt Hp Hst Hjo Hju Huniq Hch Hlim Hcol.
+    destruct (tag_schema_update_m g n rst subj old ch upd (inv_minv _ Hi) Hr Vs ER Vt Hp Hst Hjo Huniq Hch Hlim Hcol)
       as (g' & n' & t & E & St & Ist).
     exists g', n', t. split; [exact E|]. split; [eapply ts_step_inv; eauto|].
-    destruct (tag_schema_read g' n' subj _ (ts_step_minv _ _ _ _ (inv_minv _ Hi) Hlim St) Vs ER Vt Hp Ist) as (n'' & t' & R).
+    assert (Hjp : json_ok_st (if is_nil upd && negb skip_gc then None else Some (H (gen_index upd), upd)))
+      by (destruct (is_nil upd && negb skip_gc); [exact I|exact Hju]).
+    destruct (tag_schema_read g' n' subj _ (ts_step_minv _ _ _ _ (inv_minv _ Hi) Hlim St) Vs ER Vt Hp Ist Hjp) as (n'' & t' & R).
     exists n'', t'. rewrite R. destruct (is_nil upd) eqn:En; [|reflexivity].
     destruct upd; [|discriminate]. destruct skip_gc; reflexivity.
   Qed.
@@ -1308,11 +1315,11 @@ Section Refine.
     let tag := ref_tag (d_dg subj) in
     resolve_ref main tag = Some tag -> valid_digest tag = false ->
     (p_clen p = true \/ p_dighdr p = true) ->
-    index_state g tag old -> NoDup (map fst (g_tags g)) ->
+    index_state g tag old -> json_ok_st old -> NoDup (map fst (g_tags g)) ->
     let l := match old with Some (_, l) => l | None => [] end in
     let upd := clean_refs [] l ++ [r] in
     existsb (desc_eqb r) (clean_refs [] l) = false ->
-    len (gen_index upd) <= limit ->
+    len (gen_index upd) <= limit -> json_ok upd ->
     (skip_gc = true \/ forall od l0, old = Some (od, l0) -> od <> H (gen_index upd)) ->
     exists g' n' t,
       update_referrers_index H parse_mt main user_mts limit skip_gc index_of S ex0 (g, n) rst subj (RAdd r)
@@ -1321,7 +1328,7 @@ Section Refine.
       exists n'' t', tag_schema_referrers H parse_mt main user_mts limit index_of S ex0 (g', n') subj
                      = ((g', n''), t', RDescs (clean_refs [] upd)).
   Proof.
-    intros Hi Hr Vs tag ER Vt Hp Hst Hu l upd Hnew Hlim Hcol.
+    intros Hi Hr Vs tag ER Vt Hp Hst Hjo Hu l upd Hnew Hlim Hju Hcol.
     apply (tag_schema_update g n rst subj old (RAdd r) upd); auto.
     fold l. unfold apply_change. now rewrite Hnew.
   Qed.
@@ -1334,10 +1341,10 @@ Section Refine.
     let tag := ref_tag (d_dg subj) in
     resolve_ref main tag = Some tag -> valid_digest tag = false ->
     (p_clen p = true \/ p_dighdr p = true) ->
-    index_state g tag (Some (od, l)) -> NoDup (map fst (g_tags g)) ->
+    index_state g tag (Some (od, l)) -> json_ok l -> NoDup (map fst (g_tags g)) ->
     let upd := filter (fun x => negb (desc_eqb r x)) (clean_refs [] l) in
     existsb (desc_eqb r) (clean_refs [] l) = true ->
-    len (gen_index upd) <= limit ->
+    len (gen_index upd) <= limit -> json_ok upd ->
     (skip_gc = true \/ od <> H (gen_index upd)) ->
     exists g' n' t,
       update_referrers_index H parse_mt main user_mts limit skip_gc index_of S ex0 (g, n) rst subj (RRemove r)
@@ -1346,7 +1353,7 @@ Section Refine.
       exists n'' t', tag_schema_referrers H parse_mt main user_mts limit index_of S ex0 (g', n') subj
                      = ((g', n''), t', RDescs (clean_refs [] upd)).
   Proof.
-    intros Hi Hr Vs tag ER Vt Hp Hst Hu upd Hin Hlim Hcol.
+    intros Hi Hr Vs tag ER Vt Hp Hst Hjo Hu upd Hin Hlim Hju Hcol.
     apply (tag_schema_update g n rst subj (Some (od, l)) (RRemove r) upd); auto.
     - unfold apply_change. now rewrite Hin.
     - destruct Hcol as [X|X]; [now left|right]. intros od' l' Y. injection Y as <- <-. exact X.
@@ -1378,12 +1385,12 @@ Section Refine.
     let tag := ref_tag (d_dg sj) in
     resolve_ref main tag = Some tag -> valid_digest tag = false ->
     (p_clen p = true \/ p_dighdr p = true) ->
-    index_state g tag old -> NoDup (map fst (g_tags g)) ->
+    index_state g tag old -> json_ok_st old -> NoDup (map fst (g_tags g)) ->
     (forall od l0, old = Some (od, l0) -> od <> d_dg d) ->
     let l := match old with Some (_, l) => l | None => [] end in
     let upd := clean_refs [] l ++ [d] in
     existsb (desc_eqb d) (clean_refs [] l) = false ->
-    len (gen_index upd) <= limit ->
+    len (gen_index upd) <= limit -> json_ok upd ->
     (skip_gc = true \/ forall od l0, old = Some (od, l0) -> od <> H (gen_index upd)) ->
     exists g' n' t,
       run_op' (g, n) rst (OPush d c) = ((g', n'), RSUnsupported, t, ROk) /\
@@ -1393,7 +1400,7 @@ Section Refine.
       exists n'' t', run_op' (g', n') RSUnsupported (OPreds sj)
                      = ((g', n''), RSUnsupported, t', RDescs (clean_refs [] upd)).
   Proof.
-    intros Hi Pr Hrs Him Hix Hs Hh V Pm Hl Sj Vs tag ER Vt Hp Hst Hu Hod l upd Hnew Hlim Hcol.
+    intros Hi Pr Hrs Him Hix Hs Hh V Pm Hl Sj Vs tag ER Vt Hp Hst Hjo Hu Hod l upd Hnew Hlim Hju Hcol.
     destruct (man_put_noapi g n rst d c Pr Hs Hh V) as (g1 & n1 & t1 & E1 & St1).
     assert (Gm : g_mans g1 = insert (d_dg d) (d_mt d, c) (g_mans g)).
     { change (g_mans g1) with (t_mans (store_of g1)). rewrite St1. reflexivity. }
@@ -1410,12 +1417,12 @@ Section Refine.
     assert (Hr1 : rst_ok RSUnsupported) by (right; exact Pr).
     assert (Hch : apply_change (match old with Some (_, l) => l | None => [] end) (Some (RAdd d)) = Some upd).
     { fold l. unfold apply_change. now rewrite Hnew. }
-    destruct (tag_schema_update_m g1 n1 RSUnsupported sj old (RAdd d) upd Hi1 Hr1 Vs ER Vt Hp Hst1 Hu1 Hch Hlim Hcol)
+    destruct (tag_schema_update_m g1 n1 RSUnsupported sj old (RAdd d) upd Hi1 Hr1 Vs ER Vt Hp Hst1 Hjo Hu1 Hch Hlim Hcol)
       as (g' & n' & t2 & E2 & St2 & Ist).
     assert (Hi' : minv g') by (eapply ts_step_minv; eauto).
     assert (Nn : is_nil upd = false) by (unfold upd; destruct (clean_refs [] l); reflexivity).
     rewrite Nn in Ist. cbn [andb] in Ist.
-    destruct (tag_schema_read g' n' sj _ Hi' Vs ER Vt Hp Ist) as (n'' & t' & R).
+    destruct (tag_schema_read g' n' sj _ Hi' Vs ER Vt Hp Ist Hju) as (n'' & t' & R).
     exists g', n', (t1 ++ t2). split; [|split; [|split; [exact Ist|split]]].
     - cbn [run_op]. rewrite Him. unfold man_push. rewrite Hix.
       assert (Ns : rs_supported rst = false) by (destruct rst; cbn; congruence).
@@ -1449,11 +1456,11 @@ Section Refine.
     let tag := ref_tag (d_dg sj) in
     resolve_ref main tag = Some tag -> valid_digest tag = false ->
     (p_clen p = true \/ p_dighdr p = true) ->
-    index_state g tag (Some (od, l)) -> NoDup (map fst (g_tags g)) ->
+    index_state g tag (Some (od, l)) -> json_ok l -> NoDup (map fst (g_tags g)) ->
     od <> d_dg d ->
     let upd := filter (fun x => negb (desc_eqb d x)) (clean_refs [] l) in
     existsb (desc_eqb d) (clean_refs [] l) = true ->
-    len (gen_index upd) <= limit ->
+    len (gen_index upd) <= limit -> json_ok upd ->
     H (gen_index upd) <> d_dg d ->
     (skip_gc = true \/ od <> H (gen_index upd)) ->
     exists g' n' t,
@@ -1462,7 +1469,7 @@ Section Refine.
       exists n'' t', run_op' (g', n') RSUnsupported (OPreds sj)
                      = ((g', n''), RSUnsupported, t', RDescs (clean_refs [] upd)).
   Proof.
-    intros Hi Pr Hrs Him Hix L Hs V Sj Vs tag ER Vt Hp Hst Hu Hod upd Hin Hlim Hj Hcol.
+    intros Hi Pr Hrs Him Hix L Hs V Sj Vs tag ER Vt Hp Hst Hjo Hu Hod upd Hin Hlim Hju Hj Hcol.
     destruct (Hi _ _ _ L) as (Hh & Pm & Hl).
     destruct (man_fetch_hit_m g n d c Hi L Hs V) as (t1 & E1).
     destruct (ping_noapi g (n + 1) rst Pr Hrs) as (n2 & t2 & E2).
@@ -1471,7 +1478,7 @@ Section Refine.
     { unfold apply_change. now rewrite Hin. }
     assert (Hcol' : skip_gc = true \/ forall od' l0, Some (od, l) = Some (od', l0) -> od' <> H (gen_index upd)).
     { destruct Hcol as [X|X]; [now left|right]. intros od' l' Y. injection Y as <- <-. exact X. }
-    destruct (tag_schema_update_m g n2 RSUnsupported sj (Some (od, l)) (RRemove d) upd Hi Hr1 Vs ER Vt Hp Hst Hu Hch Hlim Hcol')
+    destruct (tag_schema_update_m g n2 RSUnsupported sj (Some (od, l)) (RRemove d) upd Hi Hr1 Vs ER Vt Hp Hst Hjo Hu Hch Hlim Hcol')
       as (g3 & n3 & t3 & E3 & St3 & Ist).
     assert (Hi3 : minv g3) by exact (ts_step_minv _ _ _ _ Hi Hlim St3).
     destruct St3 as (_ & _ & K3).
@@ -1490,7 +1497,9 @@ Section Refine.
       - destruct Ist as [Lt Lm]. split.
         + apply lookup_filter_some; [exact Lt|]. cbn [snd]. now rewrite (str_eqb_neq _ _ Hj).
         + rewrite Gm4, lookup_remove_neq by exact Hj. exact Lm. }
-    destruct (tag_schema_read g4 (n3 + 1) sj _ Hi4 Vs ER Vt Hp Ist4) as (n'' & t' & R).
+    assert (Hjp : json_ok_st (if is_nil upd && negb skip_gc then None else Some (H (gen_index upd), upd)))
+      by (destruct (is_nil upd && negb skip_gc); [exact I|exact Hju]).
+    destruct (tag_schema_read g4 (n3 + 1) sj _ Hi4 Vs ER Vt Hp Ist4 Hjp) as (n'' & t' & R).
     exists g4, (n3 + 1), (t1 ++ t2 ++ t3 ++ t4). split; [|split; [exact Hi4|split]].
     - cbn [run_op]. rewrite Him. unfold man_delete. rewrite Hix.
       assert (Ns : rs_supported rst = false) by (destruct rst; cbn; congruence).
@@ -1725,3 +1734,34 @@ Lemma tag_schema_example :
   ts_index_of (gen_index [ts_d1]) = Some [ts_d1] /\ ts_subject (gen_index [ts_d1]) = Some None /\
   gen_index [ts_d1] = b "{""schemaVersion"":2,""mediaType"":""application/vnd.oci.image.index.v1+json"",""manifests"":[{""mediaType"":""application/vnd.oci.image.manifest.v1+json"",""digest"":""sha256:7d317b0000000000000000000000000000000000000000000000000000000000"",""size"":3}]}".
 Proof. vm_compute. repeat split; reflexivity. Qed.
+
+(* ---------- the hypotheses of the operation-level tag-schema theorems are satisfiable ---------- *)
+Definition sat_c := b "{1}".
+Definition sat_sj := mkDesc mt_oci_manifest zero_digest 3.
+Definition sat_d := mkDesc mt_oci_manifest zero_digest 3.
+Definition sat_subject (c : str) : option (option desc) := if str_eqb c sat_c then Some (Some sat_sj) else Some None.
+Definition sat_index_of (c : str) : option (list desc) := if str_eqb c (gen_index [sat_d]) then Some [sat_d] else Some [].
+
+Lemma push_subject_satisfiable :
+  exists g' n' t,
+    run_op w_H (fun s => Some s) sat_subject (b "app") (b "src") [] w_limit false sat_index_of (reg * N)
+           (cexch w_H sat_subject (b "app") (b "src") ts_profile None) (reg0 [], 0) RSUnknown (OPush sat_d sat_c)
+    = ((g', n'), RSUnsupported, t, ROk) /\
+    minv w_H (fun s => Some s) w_limit g' /\
+    index_state g' (ref_tag zero_digest) (Some (w_H (gen_index [sat_d]), [sat_d])) /\
+    exists n'' t',
+      run_op w_H (fun s => Some s) sat_subject (b "app") (b "src") [] w_limit false sat_index_of (reg * N)
+             (cexch w_H sat_subject (b "app") (b "src") ts_profile None) (g', n') RSUnsupported (OPreds sat_sj)
+      = ((g', n''), RSUnsupported, t', RDescs [sat_d]).
+Proof.
+  destruct (push_subject_then_predecessors w_H (fun s => Some s) sat_subject (b "app") (b "src") [] w_limit false sat_index_of ts_profile
+              ltac:(intro c; vm_compute; reflexivity)
+              ltac:(intro l; reflexivity)
+              ltac:(reflexivity)
+              (reg0 []) 0 RSUnknown sat_d sat_c sat_sj None)
+    as (g' & n' & t & E & Hi & Ist & _ & R); try (vm_compute; reflexivity); try discriminate.
+  - right. reflexivity.
+  - constructor.
+  - right. discriminate.
+  - exists g', n', t. split; [exact E|]. split; [exact Hi|]. split; [exact Ist|]. exact R.
+Qed.
